@@ -260,8 +260,12 @@ def run_set(ctx, item, sizes=True):
     specs = [dict(lang="c", name="c_any", flags=[]), dict(lang="cpp", std="c++14", name="cpp14"),
              # the size bounds are the same under every language option: the option-specific fast paths must respect them too
              [dict(lang="c", name="c_little", flags=["--target-endianness", "little"]),
-              dict(lang="c", name="c_big_noassert", flags=["--target-endianness", "big"], asserts=False)][i % 2],
+              dict(lang="c", name="c_big_noassert", flags=["--target-endianness", "big"], asserts=False),
+              dict(lang="c", name="c_ovr_little_noassert", flags=["--enable-override-variable-array-capacity", "--target-endianness", "little"], asserts=False)][i % 3],
              dict(lang="cpp", std=["c++17", "c++17-pmr", "c++20"][(idx if isinstance(idx, int) else 0) % 3], name="cpp_newer"), dict(lang="py", name="py")]
+    if idx == "corpus" or not ctx.quick:
+        # the storage-override option of C (no override defined): sizes and refusals are those of the plain code
+        specs.append(dict(lang="c", name="c_ovr", flags=["--enable-override-variable-array-capacity"]))
     if not ctx.quick:
         specs += [dict(lang="c", name="c_gcc", flags=[], kind="gcc"), dict(lang="cpp", std="c++14", name="cpp14_gcc", kind="gcc")]
     bases = W.build_bases(wd, dsdl_dir, roots, parsed, specs)
@@ -299,7 +303,10 @@ def extra_types(dsdl_dir, root):
         "uint16 SCALE = 1000\nint8 NEG = -128\nint64 BIG = 9223372036854775807\nint64 NEARMIN = -9223372036854775807\nuint64 UMAX = 18446744073709551615\n"
         "float32 PI = 3.14159265358979\nfloat64 THIRD = 1/3\nfloat16 HALFMAX = 65504.0\nfloat32 TINY = 1e-30\nfloat64 HUGE = 1e300\nbool YES = true\n"
         "int64 MIN64 = -9223372036854775808\nfloat64 SUB = 1e-320\nfloat64 DMAX = 1.7976931348623157e308\nfloat32 FMAX = 3.4028234e38\nint32 MIN32 = -2147483648\n"
-        "uint8 CHR = 'a'\nint33 M33 = -4294967296\nfloat64 E = 2.718281828459045\nfloat32 NEGF = -0.5\n@sealed\n")
+        "uint8 CHR = 'a'\nint33 M33 = -4294967296\nfloat64 E = 2.718281828459045\nfloat32 NEGF = -0.5\n"
+        # single- and half-precision constants whose exact rational has a numerator or denominator beyond the range of a float / a half
+        "float32 PLANCK = 6.62607015e-34\nfloat32 FLTMIN = 1.17549435e-38\nfloat32 FDENORM = 1e-40\nfloat32 FBIG = 3.0e38\nfloat32 ELECTRON = 9.1093837e-31\n"
+        "float16 HTINY = 6.0e-8\nfloat16 HSMALL = 6.1e-5\nfloat16 HNEG = -65504.0\nfloat32 NINE = 5.57172894e-8\nfloat64 DTINY = 4.9e-324\nfloat64 AVOGADRO = 6.02214076e23\n@sealed\n")
 
 
 TWIN_A = {
